@@ -25,8 +25,11 @@ func TestC08_InFlightReads(t *testing.T) {
 	ev := evid.For("C08", "InFlightReads")
 	filters := c08Filters()[:2] // headers / blocks: one request per download
 	rapid.Check(t, func(rt *rapid.T) {
-		maxreads := rapid.IntRange(2, 5).Draw(rt, "maxreads")
-		waiters := rapid.IntRange(1, maxreads-1).Draw(rt, "waiters")
+		maxreads := rapid.IntRange(1, 5).Draw(rt, "maxreads")
+		waiters := rapid.IntRange(1, max(2, maxreads-1)).Draw(rt, "waiters")
+		if maxreads > 1 && waiters > maxreads-1 {
+			waiters = maxreads - 1
+		}
 		f := filters[rapid.IntRange(0, len(filters)-1).Draw(rt, "filter")]
 		limit := uint64(rapid.IntRange(1, 4).Draw(rt, "limit"))
 		start := uint64(rapid.IntRange(1, 11-int(limit)).Draw(rt, "start"))
@@ -76,6 +79,14 @@ func TestC08_InFlightReads(t *testing.T) {
 				}
 			}
 			return n
+		}
+		if maxreads == 1 {
+			// every answer is the one read its download allows: each caller, early or late, goes to the source
+			ev.Case(true, fmt.Sprint(maxreads, waiters, f.name, start, limit), fmt.Sprintf("waiters=%d", waiters), "maxreads=1")
+			if d := downloads(); d != 1+waiters {
+				rt.Fatalf("VERIF-VIOLATION property=C08 max-reads=1: %d callers of Get(%s,%d,%d), %d of them arriving while the first download was under way, were served by %d downloads", 1+waiters, f.name, start, limit, waiters, d)
+			}
+			return
 		}
 		if d := downloads(); d < 1 || d > 1+waiters {
 			rt.Fatalf("VERIF-VIOLATION property=C08 %d callers of Get(%s,%d,%d) caused %d downloads", 1+waiters, f.name, start, limit, d)
